@@ -346,6 +346,23 @@ func (m *ledgerMon) check(h uint32, b *BlockSpec, prevDump, dump []string, prevW
 				m.violate("staking:payouts", fmt.Sprintf("staking payouts %v, specification %v (total stake %v)", paid, exp, total), h)
 			}
 		}
+		// C14: "the balance at the previous snapshot and at this one": whenever a snapshot height has
+		// rates to value stakes with (its own, or the borrowed ones above) the snapshot tables
+		// rotate — current := the balances as they stood before this block, past := the previous
+		// current — whether or not anybody ends up being paid
+		specRates := rates
+		if len(specRates) == 0 && h < a.V202 {
+			specRates = L.Rates[int64(h)-1]
+		}
+		if applied && len(specRates) > 0 {
+			m.rep.Count("staking:snapshot-rotation-checked")
+			if d := balMapDiff(L.SC, prev.Bal); d != "" {
+				m.violate("staking:snapshot-current", "after snapshot height "+fmt.Sprint(h)+" the current snapshot is not the balance table as it stood before the block: "+d, h)
+			}
+			if d := balMapDiff(L.SP, prev.SC); d != "" {
+				m.violate("staking:snapshot-past", "after snapshot height "+fmt.Sprint(h)+" the past snapshot is not the previous current snapshot: "+d, h)
+			}
+		}
 	} else if len(paid) > 0 && h != a.DevRewards {
 		// (at the developer-reward activation the burn-address zeroing records rows under the same mock txid)
 		m.violate("staking:offschedule", "staking payout at a height that is not a snapshot height", h)
@@ -387,41 +404,85 @@ func (m *ledgerMon) check(h uint32, b *BlockSpec, prevDump, dump []string, prevW
 	// C07 / C04: once averaging is active the amount credited is floor(in * min(spot, average) /
 	// max(spot, average)); the averages are the implementation's own (its cache right after the
 	// block, computed for the last rated height before this one)
-	if rates := L.Rates[int64(h)]; h >= a.PIP10 && len(rates) > 0 && m.avgs != nil {
+	if rates := L.Rates[int64(h)]; h >= a.PIP10 && len(rates) > 0 {
 		var fromH int64 = -1
+		var rated []int64
 		for rh := range L.Rates {
-			if rh < int64(h) && rh > fromH {
-				fromH = rh
+			if rh < int64(h) {
+				rated = append(rated, rh)
+				if rh > fromH {
+					fromH = rh
+				}
 			}
 		}
-		if fromH >= 0 && int64(m.avgsHeight) == fromH {
-			for _, bb := range L.B {
-				if bb.exec != int64(h) {
+		sort.Slice(rated, func(i, j int) bool { return rated[i] > rated[j] })
+		type execConv struct {
+			hash string
+			t    histT
+		}
+		var convs []execConv
+		for _, bb := range L.B {
+			if bb.exec != int64(h) {
+				continue
+			}
+			for _, t := range L.T[bb.hash] {
+				if t.action == 2 {
+					convs = append(convs, execConv{bb.hash, t})
+				}
+			}
+		}
+		// C13: "once averaging is active, [a conversion involving an asset] whose average is
+		// unavailable" is not executed. Whatever the node's window holds (the rated heights of the
+		// last AveragePeriod heights after a reload, up to the last AveragePeriod rated heights
+		// when it has been running), it is a subset of the last AveragePeriod rated heights before
+		// the block: with fewer than AverageRequired non-zero quotes among THOSE, no reading of the
+		// rule makes the average available.
+		if fromH >= 0 && m.s.AvgPeriod > 0 {
+			period := int(m.s.AvgPeriod)
+			if len(rated) > period {
+				rated = rated[:period]
+			}
+			for _, c := range convs {
+				for _, asset := range []string{c.t.fromAsset, c.t.toAsset} {
+					nz := 0
+					for _, rh := range rated {
+						if L.Rates[rh][asset] != 0 {
+							nz++
+						}
+					}
+					m.rep.Count("admission:average-availability-checked")
+					if nz < period/2 {
+						m.violate("admission:average-unavailable-executed", fmt.Sprintf("conversion %s executed at height %d although %s has only %d non-zero quotes among the last %d rated heights before it (%d required)", c.hash, h, asset, nz, len(rated), period/2), h)
+					}
+				}
+			}
+		}
+		// C07: the averages a block prices its conversions with are those taken at the last rated
+		// height before it
+		if fromH >= 0 && m.avgs != nil && len(convs) > 0 && int64(m.avgsHeight) != fromH {
+			m.violate("conversion:averages-height", fmt.Sprintf("block %d executed conversions with averages taken at height %d; the last rated height before it is %d", h, m.avgsHeight, fromH), h)
+		}
+		if fromH >= 0 && m.avgs != nil && int64(m.avgsHeight) == fromH {
+			for _, c := range convs {
+				t, bb := c.t, struct{ hash string }{c.hash}
+				fr, tr := rates[t.fromAsset], rates[t.toAsset]
+				fa, ta := m.avgs[fat2.StringToTicker(t.fromAsset)], m.avgs[fat2.StringToTicker(t.toAsset)]
+				if fr == 0 || tr == 0 || fa == 0 || ta == 0 {
+					m.violate("conversion:zero-rate-executed", fmt.Sprintf("conversion %s executed with a zero rate or average", bb.hash), h)
 					continue
 				}
-				for _, t := range L.T[bb.hash] {
-					if t.action != 2 {
-						continue
-					}
-					fr, tr := rates[t.fromAsset], rates[t.toAsset]
-					fa, ta := m.avgs[fat2.StringToTicker(t.fromAsset)], m.avgs[fat2.StringToTicker(t.toAsset)]
-					if fr == 0 || tr == 0 || fa == 0 || ta == 0 {
-						m.violate("conversion:zero-rate-executed", fmt.Sprintf("conversion %s executed with a zero rate or average", bb.hash), h)
-						continue
-					}
-					src, dst := fr, tr
-					if fa < src {
-						src = fa
-					}
-					if ta > dst {
-						dst = ta
-					}
-					x := new(big.Int).Mul(big.NewInt(t.fromAmount), new(big.Int).SetUint64(src))
-					x.Div(x, new(big.Int).SetUint64(dst))
-					m.rep.Count("conversion:pip10-amount-checked")
-					if x.Cmp(big.NewInt(t.toAmount)) != 0 {
-						m.violate("conversion:amount:pip10", fmt.Sprintf("conversion %s credited %d, floor(%d*min(%d,%d)/max(%d,%d)) = %v", bb.hash, t.toAmount, t.fromAmount, fr, fa, tr, ta, x), h)
-					}
+				src, dst := fr, tr
+				if fa < src {
+					src = fa
+				}
+				if ta > dst {
+					dst = ta
+				}
+				x := new(big.Int).Mul(big.NewInt(t.fromAmount), new(big.Int).SetUint64(src))
+				x.Div(x, new(big.Int).SetUint64(dst))
+				m.rep.Count("conversion:pip10-amount-checked")
+				if x.Cmp(big.NewInt(t.toAmount)) != 0 {
+					m.violate("conversion:amount:pip10", fmt.Sprintf("conversion %s credited %d, floor(%d*min(%d,%d)/max(%d,%d)) = %v", bb.hash, t.toAmount, t.fromAmount, fr, fa, tr, ta, x), h)
 				}
 			}
 		}
@@ -502,6 +563,35 @@ func (m *ledgerMon) check(h uint32, b *BlockSpec, prevDump, dump []string, prevW
 	}
 }
 
+// balMapDiff: first difference between two balance tables (absent = zero), "" when equal
+func balMapDiff(x, y map[string]map[int]*big.Int) string {
+	get := func(m map[string]map[int]*big.Int, a string, t int) *big.Int {
+		if m[a] == nil || m[a][t] == nil {
+			return new(big.Int)
+		}
+		return m[a][t]
+	}
+	var addrs []string
+	seen := map[string]bool{}
+	for _, m := range []map[string]map[int]*big.Int{x, y} {
+		for a := range m {
+			if !seen[a] {
+				seen[a] = true
+				addrs = append(addrs, a)
+			}
+		}
+	}
+	sort.Strings(addrs)
+	for _, a := range addrs {
+		for t := 0; t < int(fat2.PTickerMax); t++ {
+			if get(x, a, t).Cmp(get(y, a, t)) != 0 {
+				return fmt.Sprintf("%s %s: %v vs %v", a, fat2.PTicker(t).String(), get(x, a, t), get(y, a, t))
+			}
+		}
+	}
+	return ""
+}
+
 func (L *Ledger) batchHeight(hash string) int64 {
 	for _, b := range L.B {
 		if b.hash == hash {
@@ -547,6 +637,7 @@ func scenBank(rep *Report, tier string, seed int64) {
 			a := w.S.Acts
 			g := w.G
 			h := b.Height
+			w.NoTransferNextToRequest = true
 			if h == a.Pegnet+2 {
 				// deep pockets: the requests of a block can exceed the bank several thousand times
 				for i, u := range g.Users {
@@ -579,14 +670,15 @@ func scenBank(rep *Report, tier string, seed int64) {
 			// a request that will be REJECTED when it executes: the same block also moves the
 			// funds it relies on (the transfer is applied at once, the request waits)
 			if g.R.Intn(3) == 0 {
-				for _, u := range g.Users {
+				for ui, u := range g.Users {
 					if u.IsE && h < a.RCDE {
 						continue
 					}
 					if bal := w.Balance(u.FA(), fat2.PTickerFCT); bal > 1000 {
+						other := g.Users[(ui+1)%len(g.Users)]
 						b.TX = append(b.TX,
 							g.Batch(h, u, []fat2.Transaction{Conversion(u.FA(), fat2.PTickerFCT, bal/2+1, fat2.PTickerPEG)}),
-							g.Batch(h, u, []fat2.Transaction{Transfer(u.FA(), fat2.PTickerFCT, fat2.AddressAmountTuple{Address: g.Users[0].FA(), Amount: bal/2 + 1})}))
+							g.Batch(h, u, []fat2.Transaction{Transfer(u.FA(), fat2.PTickerFCT, fat2.AddressAmountTuple{Address: other.FA(), Amount: bal/2 + 1})}))
 						w.Rep.Count("bank:request-rejected-later")
 						break
 					}
